@@ -60,13 +60,16 @@ def stack_case(height, depth, heur, calg, k=6):
     physu = s.dom_update_stack.shape[0]
     physf = s.not_entailed_propagators_stack.shape[0]
     rec["physical_rows"] = [phys, physu, physf]
-    big = np.full((phys + GUARD,) + s.shr_domains_stack.shape[1:], SENT, dtype=np.int32)
+    # (the buffers take the element types of the solver's own arrays: the harness must not pin them)
+    big = np.full((phys + GUARD,) + s.shr_domains_stack.shape[1:], SENT, dtype=s.shr_domains_stack.dtype)
     big[:phys] = s.shr_domains_stack
     s.shr_domains_stack = big[:phys]
-    bigu = np.full((physu + GUARD, 2), 60001, dtype=np.uint16)
+    USENT = int(np.iinfo(s.dom_update_stack.dtype).max) - 5
+    bigu = np.full((physu + GUARD,) + s.dom_update_stack.shape[1:], USENT, dtype=s.dom_update_stack.dtype)
     bigu[:physu] = s.dom_update_stack
     s.dom_update_stack = bigu[:physu]
-    bigf = np.zeros((physf + GUARD, s.not_entailed_propagators_stack.shape[1]), dtype=bool)
+    bigf = np.zeros((physf + GUARD, s.not_entailed_propagators_stack.shape[1]),
+                    dtype=s.not_entailed_propagators_stack.dtype)
     bigf[:physf] = s.not_entailed_propagators_stack
     s.not_entailed_propagators_stack = bigf[:physf]
     sols = []
@@ -81,11 +84,11 @@ def stack_case(height, depth, heur, calg, k=6):
     except Exception as e:
         rec["raised"] = "%s: %s" % (type(e).__name__, str(e)[:120])
     hit_d = bool(np.any(big[phys:] != SENT))
-    hit_u = bool(np.any(bigu[physu:] != 60001))
+    hit_u = bool(np.any(bigu[physu:] != USENT))
     hit_f = bool(np.any(bigf[physf:]))
     guard_hit = hit_d or hit_u or hit_f
     rec["guard_rows_touched"] = int(np.sum(np.any(big[phys:] != SENT, axis=(1, 2)))) + int(
-        np.sum(np.any(bigu[physu:] != 60001, axis=1))) + int(np.sum(np.any(bigf[physf:], axis=1)))
+        np.sum(np.any(bigu[physu:] != USENT, axis=1))) + int(np.sum(np.any(bigf[physf:], axis=1)))
     rec["guard_hit_in"] = [n for n, h in (("shr_domains_stack", hit_d), ("dom_update_stack", hit_u),
                                           ("not_entailed_propagators_stack", hit_f)) if h]
     rec["max_top_seen"] = max(tops) if tops else None
@@ -285,13 +288,16 @@ def install_canaries(s):
     phys = s.shr_domains_stack.shape[0]
     physu = s.dom_update_stack.shape[0]
     physf = s.not_entailed_propagators_stack.shape[0]
-    big = np.full((phys + GUARD,) + s.shr_domains_stack.shape[1:], SENT, dtype=np.int32)
+    # (the buffers take the element types of the solver's own arrays: the harness must not pin them)
+    big = np.full((phys + GUARD,) + s.shr_domains_stack.shape[1:], SENT, dtype=s.shr_domains_stack.dtype)
     big[:phys] = s.shr_domains_stack
     s.shr_domains_stack = big[:phys]
-    bigu = np.full((physu + GUARD, 2), 60001, dtype=np.uint16)
+    USENT = int(np.iinfo(s.dom_update_stack.dtype).max) - 5
+    bigu = np.full((physu + GUARD,) + s.dom_update_stack.shape[1:], USENT, dtype=s.dom_update_stack.dtype)
     bigu[:physu] = s.dom_update_stack
     s.dom_update_stack = bigu[:physu]
-    bigf = np.zeros((physf + GUARD, s.not_entailed_propagators_stack.shape[1]), dtype=bool)
+    bigf = np.zeros((physf + GUARD, s.not_entailed_propagators_stack.shape[1]),
+                    dtype=s.not_entailed_propagators_stack.dtype)
     bigf[:physf] = s.not_entailed_propagators_stack
     s.not_entailed_propagators_stack = bigf[:physf]
 
@@ -299,7 +305,7 @@ def install_canaries(s):
         out = []
         if np.any(big[phys:] != SENT):
             out.append("shr_domains_stack (%d rows allocated)" % phys)
-        if np.any(bigu[physu:] != 60001):
+        if np.any(bigu[physu:] != USENT):
             out.append("dom_update_stack (%d rows allocated)" % physu)
         if np.any(bigf[physf:]):
             out.append("not_entailed_propagators_stack (%d rows allocated)" % physf)
